@@ -54,6 +54,9 @@ impl<const KEYSIZE: usize> TryFrom<&str> for Key<KEYSIZE> {
   type Error = hex::FromHexError;
   fn try_from(value: &str) -> Result<Self, Self::Error> {
     let key = hex::decode(value)?;
+    if key.len() != KEYSIZE {
+      return Err(hex::FromHexError::InvalidStringLength);
+    }
     let mut me = Key::<KEYSIZE>::default();
     me.0.copy_from_slice(&key);
     Ok(me)
